@@ -62,6 +62,16 @@ pub enum Mutation {
     Swap { at: u16 },
     /// insert raw text after the `at`-th token
     Insert { at: u16, with: u16 },
+    /// replace the `at`-th number token by `with` (index into the caller's list of numbers): the
+    /// program stays syntactically valid
+    ReplaceNumber { at: u16, with: u16 },
+    /// replace the `at`-th non-keyword word by the `with`-th other word of the text
+    ReplaceWord { at: u16, with: u16 },
+    /// in the `at`-th indexed name (`x_i`, `y_i_j`) replace one index by a number of the caller's
+    /// list, written bare (`x_7`) or as an expression (`x_{7 + 1}`, `x_{-7}`)
+    ReplaceIndex { at: u16, with: u16, form: u8 },
+    /// add one more name to the `at`-th destructuring pattern: `(p, q) in` becomes `(p, q, g9) in`
+    GrowTuple { at: u16 },
 }
 
 const KEYWORDS: [&str; 12] = ["min", "max", "solve", "s", "t", "where", "define", "let", "as", "for", "in", "subject"];
@@ -80,6 +90,10 @@ fn operand_positions(p: &[Piece]) -> Vec<usize> {
 }
 
 pub fn apply(text: &str, muts: &[Mutation], replacements: &[&str]) -> String {
+    apply_ext(text, muts, replacements, &[])
+}
+
+pub fn apply_ext(text: &str, muts: &[Mutation], replacements: &[&str], numbers: &[&str]) -> String {
     let mut p = split(text);
     for m in muts {
         match m {
@@ -90,6 +104,66 @@ pub fn apply(text: &str, muts: &[Mutation], replacements: &[&str]) -> String {
                 }
                 let i = pos[*at as usize % pos.len()];
                 p[i] = Piece::Other(replacements[*with as usize % replacements.len()].to_string());
+            }
+            Mutation::ReplaceNumber { at, with } => {
+                let pos: Vec<usize> = p.iter().enumerate().filter(|(_, x)| matches!(x, Piece::Number(_))).map(|(i, _)| i).collect();
+                if pos.is_empty() || numbers.is_empty() {
+                    continue;
+                }
+                let i = pos[*at as usize % pos.len()];
+                p[i] = Piece::Other(numbers[*with as usize % numbers.len()].to_string());
+            }
+            Mutation::ReplaceIndex { at, with, form } => {
+                let pos: Vec<usize> = p
+                    .iter()
+                    .enumerate()
+                    .filter(|(_, x)| matches!(x, Piece::Word(w) if w.trim_start_matches('_').contains('_')))
+                    .map(|(i, _)| i)
+                    .collect();
+                if pos.is_empty() || numbers.is_empty() {
+                    continue;
+                }
+                let i = pos[*at as usize % pos.len()];
+                let Piece::Word(w) = &p[i] else { continue };
+                let mut parts: Vec<String> = w.split('_').map(|s| s.to_string()).collect();
+                let n = numbers[*with as usize % numbers.len()];
+                // which index: the last one, or an earlier one when there are several
+                let k = if parts.len() > 2 && form & 8 == 8 { parts.len() - 2 } else { parts.len() - 1 };
+                parts[k] = match form % 4 {
+                    0 => n.to_string(),
+                    1 => format!("{{{n} + 1}}"),
+                    2 => format!("{{-{n}}}"),
+                    _ => format!("{{{n} * {n}}}"),
+                };
+                p[i] = Piece::Other(parts.join("_"));
+            }
+            Mutation::GrowTuple { at } => {
+                // a ')' whose next non-space token is the word `in`
+                let pos: Vec<usize> = (0..p.len())
+                    .filter(|&i| {
+                        matches!(&p[i], Piece::Other(s) if s == ")")
+                            && matches!(p[i + 1..].iter().find(|x| !matches!(x, Piece::Other(s) if s.trim().is_empty())), Some(Piece::Word(w)) if w == "in")
+                    })
+                    .collect();
+                if pos.is_empty() {
+                    continue;
+                }
+                let i = pos[*at as usize % pos.len()];
+                p.insert(i, Piece::Other(", g9".to_string()));
+            }
+            Mutation::ReplaceWord { at, with } => {
+                let pos: Vec<usize> = p
+                    .iter()
+                    .enumerate()
+                    .filter(|(_, x)| matches!(x, Piece::Word(w) if !KEYWORDS.contains(&w.as_str())))
+                    .map(|(i, _)| i)
+                    .collect();
+                if pos.len() < 2 {
+                    continue;
+                }
+                let i = pos[*at as usize % pos.len()];
+                let j = pos[*with as usize % pos.len()];
+                p[i] = p[j].clone();
             }
             Mutation::Delete { at } => {
                 if !p.is_empty() {
